@@ -16,6 +16,9 @@ REGS = [("Guess", "かかない", "書かない"), ("Guess", "ためさない", 
         ("ProperNoun", "おやま", "小山"), ("CommonNoun", "くるま", "来馬"), ("Guess", "みない", "見ない"), ("Guess", "きない", "着ない")]
 
 
+SAME_SURFACE_OTHER_SPEECH = [("ProperNoun", "おやま", "小山"), ("CommonNoun", "やまだ", "山駄"), ("ProperNoun", "やまだ", "山駄"),
+                             ("ProperNoun", "くるま", "来馬"), ("CommonNoun", "くるま", "来馬"), ("ProperNoun", "ほん", "本")]
+
 PAST_FAILURE_D5B = [["confirm", "normal", "くるまで", "0", 91400000], ["register", "Guess", "ためさない", "試さない"], ["register", "Guess", "たかい", "高い"],
                     ["register", "CommonNoun", "てすと", "試験"], ["confirm", "proper", "きやま", "0", 91401000], ["confirm", "numeral", "てすと", "0", 91401001],
                     ["register", "Guess", "しずかだ", "静かだ"], ["confirm", "proper", "ためし", "0", 177801001], ["register", "Guess", "てすと", "試験"],
@@ -93,6 +96,16 @@ def run(run, replay=None):
                                 n_entries = len(d["user_entries"])
                                 r.settle(n_entries)
                 now = 600_000_000
+            if hi == 2:
+                # directed: a written form that the dictionary (or an earlier registration) already has under the reading, registered
+                # with another part of speech — the two words differ only in what the proper-noun context adds to their score
+                for reg in SAME_SURFACE_OTHER_SPEECH:
+                    res = r.register(*reg)
+                    trace.append(["register"] + list(reg))
+                    stats["registrations"] += 1
+                    if res[0] == "ok":
+                        n_entries += 1
+                        r.settle(n_entries)
             for step in range(20 if thorough else (10 if hi != 1 else 2)):
                 if rng.chance(1, 2):
                     reg = rng.pick(REGS)
@@ -165,7 +178,9 @@ def run(run, replay=None):
                 history.append(["register", kind, rd, w, st_])
             stats["queued_registrations"] = len(regs)
             S.wait_until(lambda: (lambda d: d is not None and len(d["user_entries"]) >= len(regs))(srv.dump()), 30.0)
-            time.sleep(0.6)                                     # the last entry reaches the dictionary after the user dictionary
+            # the last entry reaches the dictionary after the user dictionary: wait until it is offered
+            S.wait_until(lambda: regs[-1][1] in (S.texts(srv.conv(regs[-1][0])) or []), 15.0)
+            time.sleep(0.3)
             q_probes = sorted({rd for rd, _, _ in regs})
             q_before = {rd: S.texts(srv.conv(rd)) for rd in q_probes}
             time.sleep(2.5)                                     # two save ticks
